@@ -172,6 +172,45 @@ impl Phase for TokenSurface {
     }
 }
 
+/// single words made of digits of every script, digit-like characters and the separators people put into numbers
+/// (whatever tries to read them as a number must not trip over them), alone and inside a small expression
+struct HostileWords {
+    n: u64,
+    numeric: Vec<char>,
+    ctxs: (Ctx, Ctx),
+}
+
+impl Phase for HostileWords {
+    fn name(&self) -> String {
+        "number-like words of all scripts through the whole API".into()
+    }
+    fn len(&self) -> u64 {
+        self.n
+    }
+    fn run(&mut self, _idx: u64, r: &mut Rng, out: &mut Out) {
+        let n = r.range(1, 8);
+        let mut w = String::new();
+        for _ in 0..n {
+            match r.below(8) {
+                0 | 1 => w.push(*r.pick(&['0', '1', '7', '9'])),
+                2 | 3 | 4 => w.push(*r.pick(&self.numeric)),
+                5 => w.push(*r.pick(&['_', '.', '\'', ':', 'e', 'E', 'x', 'X', '٫', '٬', '，', '．'])),
+                6 => w.push_str(*r.pick(&["_", "0x", "1e", "e1", ".", "__"])),
+                _ => w.push(*r.pick(&['a', 'f', 'ä', '\u{200b}', '\u{301}', '#'])),
+            }
+        }
+        let src = match r.below(4) {
+            0 => w.clone(),
+            1 => format!("{} + 1", w),
+            2 => format!("-{}", w),
+            _ => format!("f({}, {})", w, w),
+        };
+        exercise(out, &src, &self.ctxs);
+        out.nontrivial(&src);
+        out.sample(|| format!("`{}`", src));
+    }
+}
+
 struct Hostile {
     n: u64,
 }
@@ -461,8 +500,8 @@ pub fn selfcheck() -> Result<String, String> {
 pub fn phases(cfg: &Cfg) -> Vec<Box<dyn Phase>> {
     let t = cfg.thorough;
     let dev = std::env::var("EVX_PROFILE").map(|p| p == "dev").unwrap_or(false);
-    let mut c03 = super::c03::phases(cfg);
-    let mut c10 = super::c10::phases(cfg);
+    let c03 = super::c03::phases(cfg);
+    let c10 = super::c10::phases(cfg);
     let mut v: Vec<Box<dyn Phase>> = Vec::new();
     v.push(Box::new(DepthStress {
         patterns: nest_patterns(),
@@ -471,25 +510,23 @@ pub fn phases(cfg: &Cfg) -> Vec<Box<dyn Phase>> {
     v.push(Box::new(ErrorDisplay {
         values: display_values(),
     }));
-    v.push(Box::new(PanicOnly {
-        inner: c10.remove(0),
-        label: "builtin matrix",
-    }));
-    v.push(Box::new(PanicOnly {
-        inner: c10.remove(0),
-        label: "len/substring sweep",
-    }));
-    v.push(Box::new(PanicOnly {
-        inner: c10.remove(0),
-        label: "builtins on random arguments",
-    }));
-    v.push(Box::new(PanicOnly {
-        inner: c03.remove(0),
-        label: "operator matrix",
-    }));
-    v.push(Box::new(PanicOnly {
-        inner: c03.remove(0),
-        label: "operators on random operands",
+    // every phase of the builtin check and of the operator check, watched by the panic monitor only
+    for inner in c10 {
+        v.push(Box::new(PanicOnly {
+            inner,
+            label: "builtins",
+        }));
+    }
+    for inner in c03 {
+        v.push(Box::new(PanicOnly {
+            inner,
+            label: "operators",
+        }));
+    }
+    v.push(Box::new(HostileWords {
+        n: cfg.n(100_000, 5_000_000),
+        numeric: (0u32..0x20000).filter_map(char::from_u32).filter(|c| c.is_numeric() && !c.is_ascii()).collect(),
+        ctxs: probe_contexts(),
     }));
     // the unoptimised dev profile is ~20x slower: one length less there
     let cut = if dev { 1 } else { 0 };
